@@ -138,11 +138,11 @@ def shrink_candidates(case):
     # fewer calls (one session)
     for cand in list_candidates(calls, keep_min=1):
         c = dict(case)
-        c['program'] = {'sessions': [cand], 'version': prog['version']}
+        c['program'] = dict(prog, sessions=[cand])
         yield c
     if len(prog['sessions']) > 1:
         c = dict(case)
-        c['program'] = {'sessions': [calls], 'version': prog['version']}
+        c['program'] = dict(prog, sessions=[calls])
         yield c
     for k, v in (('index', False), ('sink', 'simpath')):
         if case[k] != v:
